@@ -20,10 +20,14 @@ fn main() {
         // vcheck fuzz-oracle <target> <file>: run one saved input through a target's oracle
         core::install_panic_hook();
         let data = std::fs::read(&args[2]).expect("read input");
+        if args[1] == "fz_sim" && std::env::var_os("VERIF_DEBUG").is_some() {
+            println!("{}", serde_json::to_string(&vlib::fuzzops::script_from_bytes(&data).0).unwrap());
+        }
         let res = match args[1].as_str() {
             "fz_stream" => vlib::fuzzops::stream_target(&data),
             "fz_typed" => vlib::fuzzops::typed_target(&data),
             "fz_cmd" => vlib::fuzzops::cmd_target(&data),
+            "fz_sim" => vlib::fuzzops::sim_target(&data),
             _ => usage(),
         };
         match res {
